@@ -4,7 +4,7 @@
 From Coq Require Import List ZArith NArith Bool Arith.
 Import ListNotations.
 From RV Require Import Lib.Str Model.DataFile Proofs.DataFileP.
-From RV Require Import Gen.GenFacts.
+From RV Require Import Gen.GenFactsPersist.
 
 (** What a session appends to a loadable file is read back by the loader as exactly the data
     points it recorded - each once, whole, in order, for the right run, warm-up included - and
